@@ -197,6 +197,15 @@ impl OffsetsBase {
         self.outer_pos.len() + self.inner_pos.len()
     }
 
+    /// Return the linear index, in the tensor's element sequence, of the next
+    /// element that will be yielded from the front.
+    fn linear_index(&self) -> usize {
+        (0..self.ndim()).fold(0, |index, dim| {
+            let pos = self.pos(dim);
+            index * pos.size() + pos.index()
+        })
+    }
+
     /// Compute the storage offset of an element given a linear index into a
     /// tensor's element sequence.
     fn offset_from_linear_index(&self, index: usize) -> usize {
@@ -303,7 +312,7 @@ impl DoubleEndedIterator for OffsetsBase {
 
         // This is inefficient compared to forward iteration, but that's OK
         // because reverse iteration is not performance critical.
-        let index = self.len - 1;
+        let index = self.linear_index() + self.len - 1;
         let offset = self.offset_from_linear_index(index);
         self.len -= 1;
 
